@@ -13,7 +13,7 @@ __all__ = [
 
 import collections
 import logging
-from collections.abc import Iterable, Iterator, Sequence
+from collections.abc import Iterable, Iterator, Mapping, Sequence
 from typing import SupportsIndex, TypeVar
 
 import onnx_ir
@@ -461,13 +461,32 @@ class Attributes(collections.UserDict[str, "_core.Attr"]):
         self._owner = owner
         super().__init__({attr.name: attr for attr in attrs})
 
-    def __setitem__(self, key: str, value: _core.Attr) -> None:
-        """Set an attribute for the node."""
+    @staticmethod
+    def _check_item(key: str, value: _core.Attr) -> None:
+        """Raise if ``self[key] = value`` would be rejected. Must not modify anything."""
         if type(key) is not str:
             raise TypeError(f"Key must be a string, not {type(key)}")
         if not isinstance(value, _core.Attr):
             raise TypeError(f"Value must be an Attr, not {type(value)}")
+
+    def __setitem__(self, key: str, value: _core.Attr) -> None:
+        """Set an attribute for the node."""
+        self._check_item(key, value)
         super().__setitem__(key, value)
+
+    def update(self, other=(), /, **kwargs) -> None:  # type: ignore[override]
+        """Set several attributes. Every item is checked before any of them is set."""
+        if isinstance(other, Mapping):
+            items = list(other.items())
+        elif hasattr(other, "keys"):
+            items = [(key, other[key]) for key in other.keys()]
+        else:
+            items = [(key, value) for key, value in other]
+        items.extend(kwargs.items())
+        for key, value in items:
+            self._check_item(key, value)
+        for key, value in items:
+            super().__setitem__(key, value)
 
     def add(self, value: _core.Attr) -> None:
         """Add an attribute to the node."""
